@@ -128,6 +128,9 @@ func (e *Env) lookupIdent(name string) (tv, bool) {
 		}
 	}
 	if e.frame != nil {
+		if a, ok := e.frame.alias[name]; ok {
+			name = a
+		}
 		if v, ok := e.frame.locals[name]; ok {
 			// declared type of the variable
 			t := e.c.eng.localType(e.frame.fn, name)
